@@ -22,7 +22,7 @@ class Form:
         if self.kind == 'CONST':
             return 'const %d' % self.const
         if self.kind == 'AFFINE':
-            parts = ['%+d*%s' % (c, 'len(self.%s)' % '.'.join(a[1]) if a[0] == 'len' else str(a)) for a, c in sorted(self.terms.items(), key=str)]
+            parts = ['%+d*%s' % (c, 'len(self.%s)' % '.'.join(a[1]) if a[0] == 'len' else ('self.%s (entry counter)' % '.'.join(a[1]) if a[0] == 'entries' else str(a))) for a, c in sorted(self.terms.items(), key=str)]
             return ' '.join(parts) + (' %+d' % self.const if self.const else '')
         if self.kind == 'COUNTER':
             return 'loop counter (scaled by a constant)'
@@ -82,6 +82,13 @@ def sizeform(prog, fn, v, depth=0, _seen=None):
         root = v.args[0]
         if root.kind == 'bin' and v.fields() == ('0',):
             return sizeform(prog, fn, root, depth + 1, _seen)
+        sf_ = prog.self_field(v)
+        if sf_ and len(sf_) == 1 and fn.self_adt in prog.tree_adts:
+            # a maintained entry counter (ENTITY's counter discipline: 0 from constructors and clear, +1 per slot taken for an
+            # entry, -1 per removal): it IS the entry count
+            from rules.entity import counter_discipline
+            if counter_discipline(prog, fn.self_adt, sf_[0]) is None:
+                return Form('AFFINE', {('entries', sf_): 1})
         return bad('value read from memory: %s' % show(v, 3))
     if v.ty == 'bool' or (k == 'bin' and v.args[0] in ('Eq', 'Ne', 'Lt', 'Le', 'Gt', 'Ge')):
         return Form('CONST', const=1)        # a truth value widened to an integer: at most 1
@@ -308,6 +315,10 @@ def entry_count_form(f):
         return False, 'constant part %d' % f.const
     if any(c > 8 for c in pos.values()):
         return False, 'factor larger than 8'
+    if any(a[0] == 'entries' for a in pos):
+        if neg or len(pos) != 1:
+            return False, 'an entry counter mixed with other lengths'
+        return True, ''
     arena = [a for a in pos if a[0] == 'len' and a[1] and a[1][-1] == 'buffer' and len(a[1]) > 1]
     if arena:
         # arena length counts every slot ever allocated (the peak); it must be offset by the free list
